@@ -66,12 +66,12 @@ def unit_probe(rng, acc):
     out = FixedWeightPortfolioOptimiser()(base, initial_weights=dict(w))
     if out != w:
         raise core.Violation(PROP, 'fixed-weight-optimiser', 'fixed-weight optimiser turned %s into %s' % (w, out), {})
-    scale = rng.choice([0.5, 1.0, 2.0, round(rng.uniform(0.1, 5), 3)])
+    scale = rng.choice([0.5, 1.0, 2.0, round(rng.uniform(0.1, 5), 3), 0.0, 0])
     out = EqualWeightPortfolioOptimiser(scale=scale)(base, initial_weights=dict(w))
     if set(out) != set(w):
         raise core.Violation(PROP, 'equal-weight-keys', 'equal-weight optimiser keys %s for %s' % (sorted(out), sorted(w)), {})
     vals = list(out.values())
-    if any(v != vals[0] for v in vals) or abs(sum(vals) - scale) > 1e-9 * max(1.0, scale) or abs(vals[0] - scale / k) > 1e-12 * scale:
+    if any(v != vals[0] for v in vals) or abs(sum(vals) - scale) > 1e-9 * max(1.0, scale) or abs(vals[0] - scale / k) > 1e-12 * max(scale, 1e-300):
         raise core.Violation(PROP, 'equal-weight-values', 'equal-weight optimiser gave %s for scale %r over %d assets'
                              % (vals[:3], scale, k), {})
     acc.count('C19:optimiser_checks')
@@ -84,7 +84,7 @@ def unit_probe(rng, acc):
         if dict(out_f) != dict(d):
             raise core.Violation(PROP, 'fixed-weight-optimiser/reuse', 'fixed-weight optimiser returned %s for %s on call %d of the '
                                  'same object' % (out_f, d, step + 1), {})
-        if set(out_e) != set(d) or any(abs(v - scale / len(d)) > 1e-12 * scale for v in out_e.values()):
+        if set(out_e) != set(d) or any(abs(v - scale / len(d)) > 1e-12 * max(scale, 1e-300) for v in out_e.values()):
             raise core.Violation(PROP, 'equal-weight/reuse', 'equal-weight optimiser returned %s for keys %s on call %d of the same '
                                  'object (the dict was changed in place between calls)' % (out_e, sorted(d), step + 1), {})
         # change the dict in place: drop one key (if possible), add a new one, change a value
@@ -130,7 +130,29 @@ def run_shard(spec, acc):
             continue
         cfg = sesswl.gen_cfg(rng, alpha_kinds=('single',), universe_kinds=('dynamic',),
                              max_days=60 if spec['tier'] == 'quick' else 200, n_assets=rng.randint(2, 6))
-        tr, _ = sesswl.run_case(cfg, acc, PROP)
+        if i % 3 == 1:
+            # the universe object first serves a session whose alpha model uses a Signal built on it (signals keep and
+            # extend the list the universe gave them), then the session under test
+            if rng.random() < 0.6:
+                # the session under test rebalances at the very instant the earlier signals were created for
+                old_start = cfg['start']
+                cfg = dict(cfg, rebalance='buy_and_hold', burn_in=None, start=cfg['start'][:10] + ' 14:30:00+00:00')
+                cfg.pop('weekday', None)
+                cfg['universe'] = {'kind': 'dynamic', 'dates': {a: (cfg['start'] if d == old_start else d)
+                                                               for a, d in cfg['universe']['dates'].items()}}
+            world = sesswl.make_world(cfg)
+            try:
+                shared = {'share_universe': True}
+                prior = dict(cfg, burn_in=None, alpha={'kind': 'inv_vol', 'lookback': 3} if cfg['long_only'] else {'kind': 'mom_sign', 'lookback': 2})
+                sesswl.run_session(prior, world, shared=shared)
+                shared.pop('source', None)
+                tr = sesswl.run_session(cfg, world, shared=shared)
+                core.guarded(PROP, acc, dict(cfg, after_signal_session=True), sesswl.check_c19_session, cfg, world, tr, acc)
+                acc.count('C19:sessions_after_a_signal_session_on_the_same_universe')
+            finally:
+                world.close()
+        else:
+            tr, _ = sesswl.run_case(cfg, acc, PROP)
         acc.evaluations += 1
         acc.count('sessions:%s' % cfg['rebalance'])
         s, e = pd.Timestamp(cfg['start']), pd.Timestamp(cfg['end'])
@@ -142,7 +164,19 @@ def run_shard(spec, acc):
 
 
 def replay(case, acc):
-    if case.get('kind') == 'pcm':
+    if case.get('after_signal_session'):
+        cfg = {k: v for k, v in case.items() if k != 'after_signal_session'}
+        world = sesswl.make_world(cfg)
+        try:
+            shared = {'share_universe': True}
+            prior = dict(cfg, burn_in=None, alpha={'kind': 'inv_vol', 'lookback': 3} if cfg['long_only'] else {'kind': 'mom_sign', 'lookback': 2})
+            sesswl.run_session(prior, world, shared=shared)
+            shared.pop('source', None)
+            tr = sesswl.run_session(cfg, world, shared=shared)
+            core.guarded(PROP, acc, case, sesswl.check_c19_session, cfg, world, tr, acc)
+        finally:
+            world.close()
+    elif case.get('kind') == 'pcm':
         core.guarded(PROP, acc, case, pcmwl.run_c19_case, case['case'], acc)
     elif case.get('kind') == 'unit':
         rng = random.Random(case['rng_seed'])
